@@ -79,6 +79,13 @@ func Setup(env *runner.Env) error {
 			Seeds = append(Seeds, Input{Name: v.name, Kind: "file-shrunk", Data: v.data})
 		}
 	}
+	// whole hand-built files (several top-level boxes): handler-name shapes in progressive and
+	// fragmented files, encrypted fragments with sample-group boxes next to the senc
+	for _, f := range corpus.BuiltFiles() {
+		if len(f.Data) <= MaxFileLen {
+			Seeds = append(Seeds, Input{Name: f.Name, Kind: f.Kind, Type: f.Type, Data: f.Data})
+		}
+	}
 	for _, b := range cor.Boxes {
 		Seeds = append(Seeds, Input{Name: b.Name, Kind: b.Kind, Type: b.Type, Data: b.Data})
 	}
